@@ -68,7 +68,8 @@ class SimpleBlock(Block):
         return ImpulseDict(make_impulse_uniform_length(self.f(input_args), inputs.T))[outputs] - ss
 
     def _impulse_linear(self, ss, inputs, outputs, Js):
-        return ImpulseDict(self.jacobian(ss, list(inputs.keys()), outputs, inputs.T, Js).apply(inputs))
+        # ss, inputs and outputs carry the function's own names here, so use the internal Jacobian (not the public, remapped one)
+        return ImpulseDict(self._jacobian(ss, list(inputs.keys()), outputs, inputs.T).apply(inputs))
 
     def _jacobian(self, ss, inputs, outputs, T):
         invertedJ = {i: {} for i in inputs}
